@@ -106,6 +106,7 @@ func schemas() []*schemaInfo {
 type credSpec struct {
 	Schema        *schemaInfo
 	Subject       string // "" = no subject id
+	SubjectRaw    any    // non-nil: written as credentialSubject.id as is (non-DID identifiers, non-strings)
 	Expiration    *int64 // unix seconds, nil = none
 	Status        int    // 0 none, 1 plain, 2 with statusIssuer
 	NoSubjectType bool
@@ -119,7 +120,9 @@ func buildDoc(sp credSpec) map[string]any {
 	if !sp.NoSubjectType {
 		cs["type"] = sp.Schema.Type
 	}
-	if sp.Subject != "" {
+	if sp.SubjectRaw != nil {
+		cs["id"] = sp.SubjectRaw
+	} else if sp.Subject != "" {
 		cs["id"] = sp.Subject
 	}
 	k := sp.Variant
@@ -222,6 +225,9 @@ func changedLeaf(path []string, v any) []any {
 				return []any{s}
 			}
 			return nil
+		case full == "credentialSubject.id" && !strings.HasPrefix(x, "did:"):
+			// an identifier that is not a DID is changed into another one that is not a DID
+			return []any{x + "x", otherDID}
 		case full == "credentialSubject.id" || key == "issuer":
 			if x == otherDID {
 				return []any{otherDID2}
